@@ -41,7 +41,8 @@ def record(tr, cases, wd, want_kinds):
                 la = load.to_abstract(lib.get("value")) if lib.get("ok") else None
                 obs = {"validate": {"ok": bool(v.get("ok") and va is not None), "val": va or {"t": "none"},
                                     "pos": [{"p": seg_path(x["from_path"]), "l": x["l"], "c": x["c"]} for x in v.get("positions", [])],
-                                    "spos": [{"p": seg_path(x["path"]), "l": x["l"], "c": x["c"], "rn": x["rn"]} for x in v.get("sarif", [])]},
+                                    "spos": [{"p": seg_path(x["path"]), "l": x["l"], "c": x["c"], "rn": x["rn"]} for x in v.get("sarif", [])],
+                                    "ppos": [{"p": seg_path(x["path"]), "l": x["l"], "c": x["c"]} for x in v.get("payload", [])]},
                        "lib": {"ok": bool(lib.get("ok") and la is not None), "val": la or {"t": "none"}},
                        "test": {"ok": bool(t.get("ok")), "same": t.get("same", "?")}}
                 line = {"i": i, "kind": "doc", "fmt": c["fmt"], "lay": c["lay"], "doc": c["doc"], "txt": c["txt"], "obs": obs,
@@ -189,7 +190,7 @@ def run(tier):
     n = record(tr, cases, wd, {"doc", "scalar", "tag", "reject", "escape"})
     wd.close()
     # positions belong to C10
-    lines = judge(res, tr, n, None, key_of, skip=("positions", "sarif-regions"))
+    lines = judge(res, tr, n, None, key_of, skip=("positions", "sarif-regions", "payload-positions"))
     res.add("evaluations", n * 3)
     for i in (1, n // 2):
         if i in lines:
